@@ -157,7 +157,14 @@ Inductive oop :=
 | ODelete (l : lvl) (k : Z)
 | OGet (k : Z) | OGetPrim (k : Z) | OIn (k : Z) | OHasOwn (k : Z) | ODesc (k : Z)
 | OKeys | ONames
-| OCall (m : meth) (args : list arg).
+| OCall (m : meth) (args : list arg)
+(* through the primitive string itself: 8.7.1 / 8.7.2 build a new temporary String object for
+   every access, so nothing written this way can ever be read back *)
+| OSetPrim (k : Z) (v : pv)          (* p[k] = v *)
+| OSetPrimMethod (m : meth)          (* p.m = function(){ return "?" } *)
+| OSetLenPrim (n : Z)                (* p.length = n *)
+| OCallPrim (m : meth) (args : list arg)
+| OHasOwnPrim (k : Z) | ODeletePrim (k : Z) | OLenPrim.
 
 Definition res_of_pv (v : pv) : res :=
   match v with PNum n => VInt n | PStr u => VStr u | PUndef => VUndef end.
@@ -195,6 +202,11 @@ Definition step_obj (define : str -> ostate -> lvl -> Z -> ddesc -> option (osta
   | OKeys => Some (st, VList [keys u st true])
   | ONames => Some (st, VList [keys u st false])
   | OCall m args => option_map (fun r => (st, r)) (call m (RStrObj u) args)
+  | OSetPrim _ _ | OSetPrimMethod _ | OSetLenPrim _ => Some (st, VUndef)
+  | OCallPrim m args => option_map (fun r => (st, r)) (call m (RLit u) args)
+  | OHasOwnPrim k => Some (st, VInt (zb (match char_prop (Some u) k with Some _ => true | None => false end)))
+  | ODeletePrim k => Some (st, VInt (zb (match char_prop (Some u) k with Some _ => false | None => true end)))
+  | OLenPrim => option_map (fun r => (st, r)) (call MLength (RLit u) [])
   end.
 
 Fixpoint run_obj (step : ostate -> oop -> option (ostate * res)) (st : ostate) (ops : list oop)
